@@ -9,7 +9,7 @@ REGISTRY = {
         "tests": [
             {"name": "TestC01Encode", "shards": 8, "shards_thorough": 16},
         ],
-        "require": {"c01": 4000, "ctor:bin-byte": 288, "ctor:bin-int": 291, "ctor:bin-slice": 801, "ctor:bin-string": 279, "ctor:bool-scalar": 423, "ctor:bool-slice": 799, "ctor:float-f4-unrounded": 183, "ctor:float-scalar-float32": 157, "ctor:float-scalar-float64": 199, "ctor:float-scalar-int": 44, "ctor:float-scalar-int64": 48, "ctor:float-scalar-string": 193, "ctor:float-scalar-uint": 42, "ctor:float-slice-float32": 289, "ctor:float-slice-float64": 386, "ctor:float-slice-string": 327, "ctor:int-scalar-int": 286, "ctor:int-scalar-int16": 260, "ctor:int-scalar-int32": 275, "ctor:int-scalar-int64": 303, "ctor:int-scalar-int8": 212, "ctor:int-scalar-string": 286, "ctor:int-scalar-uint": 191, "ctor:int-scalar-uint16": 119, "ctor:int-scalar-uint32": 132, "ctor:int-scalar-uint64": 171, "ctor:int-scalar-uint8": 90, "ctor:int-slice-int": 410, "ctor:int-slice-int16": 418, "ctor:int-slice-int32": 388, "ctor:int-slice-int64": 444, "ctor:int-slice-int8": 360, "ctor:int-slice-string": 389, "ctor:int-slice-uint": 243, "ctor:int-slice-uint16": 191, "ctor:int-slice-uint32": 180, "ctor:int-slice-uint64": 190, "ctor:int-slice-uint8": 178, "ctor:list-nil-skipped": 732, "ctor:uint-scalar-int": 235, "ctor:uint-scalar-int16": 171, "ctor:uint-scalar-int32": 179, "ctor:uint-scalar-int64": 212, "ctor:uint-scalar-int8": 143, "ctor:uint-scalar-string": 251, "ctor:uint-scalar-uint": 254, "ctor:uint-scalar-uint16": 250, "ctor:uint-scalar-uint32": 254, "ctor:uint-scalar-uint64": 271, "ctor:uint-scalar-uint8": 223, "ctor:uint-slice-int": 317, "ctor:uint-slice-int16": 221, "ctor:uint-slice-int32": 230, "ctor:uint-slice-int64": 264, "ctor:uint-slice-int8": 184, "ctor:uint-slice-string": 319, "ctor:uint-slice-uint": 334, "ctor:uint-slice-uint16": 381, "ctor:uint-slice-uint32": 360, "ctor:uint-slice-uint64": 402, "ctor:uint-slice-uint8": 344, "depth:0": 2519, "depth:1-2": 984, "depth:3-8": 395, "depth:64": 5, "depth:9-62": 64, "fc:ascii:0": 414, "fc:ascii:1": 243, "fc:ascii:2": 170, "fc:ascii:>2": 232, "fc:binary:0": 617, "fc:binary:1": 356, "fc:binary:2": 236, "fc:binary:>2": 365, "fc:boolean:0": 604, "fc:boolean:1": 355, "fc:boolean:2": 208, "fc:boolean:>2": 339, "fc:f4:0": 269, "fc:f4:1": 154, "fc:f4:2": 92, "fc:f4:>2": 126, "fc:f8:0": 272, "fc:f8:1": 154, "fc:f8:2": 91, "fc:f8:>2": 135, "fc:i1:0": 326, "fc:i1:1": 191, "fc:i1:2": 108, "fc:i1:>2": 161, "fc:i2:0": 318, "fc:i2:1": 193, "fc:i2:2": 110, "fc:i2:>2": 170, "fc:i4:0": 276, "fc:i4:1": 159, "fc:i4:2": 94, "fc:i4:>2": 130, "fc:i8:0": 313, "fc:i8:1": 192, "fc:i8:2": 119, "fc:i8:>2": 154, "fc:jis8:0": 435, "fc:jis8:1": 249, "fc:jis8:2": 169, "fc:jis8:>2": 240, "fc:list:0": 531, "fc:list:1": 578, "fc:list:2": 579, "fc:list:>2": 1060, "fc:localized_str:2": 336, "fc:localized_str:>2": 391, "fc:u1:0": 266, "fc:u1:1": 166, "fc:u1:2": 95, "fc:u1:>2": 129, "fc:u2:0": 272, "fc:u2:1": 155, "fc:u2:2": 98, "fc:u2:>2": 127, "fc:u4:0": 382, "fc:u4:1": 227, "fc:u4:2": 136, "fc:u4:>2": 199, "fc:u8:0": 274, "fc:u8:1": 163, "fc:u8:2": 95, "fc:u8:>2": 129, "lenbytes:1": 3809, "lenbytes:2": 541, "lenbytes:3": 100, "slab:22-85": 55, "slab:6-21": 177, "slab:86-213": 58, "slab:>213": 75},
+        "require": {"c01": 4000, "ctor:bin-byte": 285, "ctor:bin-int": 284, "ctor:bin-slice": 792, "ctor:bin-string": 271, "ctor:bool-scalar": 420, "ctor:bool-slice": 781, "ctor:float-f4-unrounded": 183, "ctor:float-scalar-float32": 152, "ctor:float-scalar-float64": 199, "ctor:float-scalar-int": 44, "ctor:float-scalar-int64": 47, "ctor:float-scalar-string": 193, "ctor:float-scalar-uint": 39, "ctor:float-slice-float32": 289, "ctor:float-slice-float64": 386, "ctor:float-slice-string": 327, "ctor:int-scalar-int": 285, "ctor:int-scalar-int16": 258, "ctor:int-scalar-int32": 275, "ctor:int-scalar-int64": 303, "ctor:int-scalar-int8": 212, "ctor:int-scalar-string": 283, "ctor:int-scalar-uint": 185, "ctor:int-scalar-uint16": 114, "ctor:int-scalar-uint32": 131, "ctor:int-scalar-uint64": 164, "ctor:int-scalar-uint8": 89, "ctor:int-slice-int": 402, "ctor:int-slice-int16": 416, "ctor:int-slice-int32": 388, "ctor:int-slice-int64": 444, "ctor:int-slice-int8": 360, "ctor:int-slice-string": 389, "ctor:int-slice-uint": 243, "ctor:int-slice-uint16": 191, "ctor:int-slice-uint32": 178, "ctor:int-slice-uint64": 190, "ctor:int-slice-uint8": 178, "ctor:list-nil-across-256": 45, "ctor:list-nil-skipped": 732, "ctor:uint-scalar-int": 235, "ctor:uint-scalar-int16": 171, "ctor:uint-scalar-int32": 179, "ctor:uint-scalar-int64": 212, "ctor:uint-scalar-int8": 143, "ctor:uint-scalar-string": 250, "ctor:uint-scalar-uint": 254, "ctor:uint-scalar-uint16": 250, "ctor:uint-scalar-uint32": 254, "ctor:uint-scalar-uint64": 271, "ctor:uint-scalar-uint8": 223, "ctor:uint-slice-int": 317, "ctor:uint-slice-int16": 221, "ctor:uint-slice-int32": 230, "ctor:uint-slice-int64": 264, "ctor:uint-slice-int8": 184, "ctor:uint-slice-string": 319, "ctor:uint-slice-uint": 334, "ctor:uint-slice-uint16": 381, "ctor:uint-slice-uint32": 360, "ctor:uint-slice-uint64": 402, "ctor:uint-slice-uint8": 344, "depth:0": 2506, "depth:1-2": 984, "depth:3-8": 395, "depth:64": 5, "depth:9-62": 64, "fc:ascii:0": 414, "fc:ascii:1": 243, "fc:ascii:2": 160, "fc:ascii:>2": 232, "fc:binary:0": 617, "fc:binary:1": 343, "fc:binary:2": 234, "fc:binary:>2": 362, "fc:boolean:0": 588, "fc:boolean:1": 355, "fc:boolean:2": 204, "fc:boolean:>2": 333, "fc:f4:0": 269, "fc:f4:1": 154, "fc:f4:2": 92, "fc:f4:>2": 126, "fc:f8:0": 272, "fc:f8:1": 154, "fc:f8:2": 91, "fc:f8:>2": 134, "fc:i1:0": 326, "fc:i1:1": 191, "fc:i1:2": 108, "fc:i1:>2": 158, "fc:i2:0": 318, "fc:i2:1": 193, "fc:i2:2": 110, "fc:i2:>2": 149, "fc:i4:0": 273, "fc:i4:1": 159, "fc:i4:2": 94, "fc:i4:>2": 130, "fc:i8:0": 313, "fc:i8:1": 187, "fc:i8:2": 113, "fc:i8:>2": 154, "fc:jis8:0": 435, "fc:jis8:1": 246, "fc:jis8:2": 154, "fc:jis8:>2": 235, "fc:list:0": 531, "fc:list:1": 578, "fc:list:2": 579, "fc:list:>2": 1058, "fc:localized_str:2": 336, "fc:localized_str:>2": 390, "fc:u1:0": 266, "fc:u1:1": 158, "fc:u1:2": 95, "fc:u1:>2": 129, "fc:u2:0": 268, "fc:u2:1": 155, "fc:u2:2": 93, "fc:u2:>2": 127, "fc:u4:0": 382, "fc:u4:1": 227, "fc:u4:2": 136, "fc:u4:>2": 196, "fc:u8:0": 271, "fc:u8:1": 163, "fc:u8:2": 94, "fc:u8:>2": 129, "lenbytes:1": 3809, "lenbytes:2": 536, "lenbytes:3": 95, "slab:22-85": 54, "slab:6-21": 177, "slab:86-213": 54, "slab:>213": 69},
     },
     "C02": {
         "level": "exploration",
@@ -21,7 +21,7 @@ REGISTRY = {
             {"name": "TestC02Hostile", "shards": 1},
             {"name": "FuzzC02Decode", "shards": 1, "fuzz": True, "tier": "thorough", "fuzztime": "180s"},
         ],
-        "require": {"accepted": 5001, "hostile:accepted": 123, "hostile:rejected": 4177, "hostile:variant0": 1433, "hostile:variant1": 1433, "hostile:variant2": 1433, "mut:byteflip": 1408, "mut:byteflip:accepted": 515, "mut:byteflip:rejected": 892, "mut:formatbyte": 831, "mut:formatbyte:accepted": 62, "mut:formatbyte:rejected": 769, "mut:hostile": 468, "mut:hostile:rejected": 449, "mut:lenbytecount": 623, "mut:lenbytecount:accepted": 175, "mut:lenbytecount:rejected": 447, "mut:lengthfield": 1190, "mut:lengthfield:accepted": 478, "mut:lengthfield:rejected": 711, "mut:nestedlists": 481, "mut:nestedlists:rejected": 481, "mut:noncanonical": 613, "mut:noncanonical:accepted": 613, "mut:random": 473, "mut:random:accepted": 63, "mut:random:rejected": 410, "mut:splice": 740, "mut:splice:accepted": 740, "mut:trailing": 481, "mut:trailing:accepted": 481, "mut:truncate": 844, "mut:truncate:accepted": 214, "mut:truncate:rejected": 630, "mut:valid": 1381, "mut:valid:accepted": 1381, "mut:wrapdepth": 462, "mut:wrapdepth:accepted": 256, "mut:wrapdepth:rejected": 206, "rejected": 4998},
+        "require": {"accepted": 4951, "hostile:accepted": 123, "hostile:rejected": 4177, "hostile:variant0": 1433, "hostile:variant1": 1433, "hostile:variant2": 1433, "mut:byteflip": 1402, "mut:byteflip:accepted": 504, "mut:byteflip:rejected": 892, "mut:formatbyte": 831, "mut:formatbyte:accepted": 62, "mut:formatbyte:rejected": 769, "mut:hostile": 468, "mut:hostile:rejected": 449, "mut:lenbytecount": 593, "mut:lenbytecount:accepted": 158, "mut:lenbytecount:rejected": 435, "mut:lengthfield": 1176, "mut:lengthfield:accepted": 476, "mut:lengthfield:rejected": 700, "mut:nestedlists": 475, "mut:nestedlists:rejected": 475, "mut:noncanonical": 596, "mut:noncanonical:accepted": 596, "mut:random": 473, "mut:random:accepted": 58, "mut:random:rejected": 410, "mut:splice": 740, "mut:splice:accepted": 740, "mut:trailing": 474, "mut:trailing:accepted": 474, "mut:truncate": 837, "mut:truncate:accepted": 197, "mut:truncate:rejected": 630, "mut:valid": 1377, "mut:valid:accepted": 1377, "mut:wrapdepth": 462, "mut:wrapdepth:accepted": 256, "mut:wrapdepth:rejected": 206, "rejected": 4998},
     },
     "C03": {
         "level": "exploration",
@@ -33,7 +33,7 @@ REGISTRY = {
             {"name": "TestC03Wire", "shards": 4, "shards_thorough": 16},
             {"name": "TestC03Concurrent", "shards": 4, "shards_thorough": 16, "race": True, "crash_is_violation": True},
         ],
-        "require": {"c03:control:0": 210, "c03:control:1": 224, "c03:control:2": 141, "c03:control:3": 133, "c03:control:4": 111, "c03:control:5": 104, "c03:control:6": 116, "c03:control:7": 111, "c03:control:8": 93, "c03:control:9": 122, "c03:data": 2159, "c03:rejected": 2471, "c03:restamps:1": 608, "c03:restamps:2": 574, "c03:restamps:3": 464, "c03:restamps:4": 512, "c03:wire:Forward": 1061, "c03:wire:ForwardAsync": 1091, "c03:wire:Reply": 795, "c03:wire:Send": 776, "c03:wire:SendAsync": 804, "c03:wire:SendSECS2": 675, "c03:wire:active": 2604, "c03:wire:passive": 2599},
+        "require": {"c03:concurrent:goroutines>=4:false": 119, "c03:concurrent:goroutines>=4:true": 180, "c03:control:0": 210, "c03:control:1": 219, "c03:control:2": 141, "c03:control:3": 133, "c03:control:4": 111, "c03:control:5": 102, "c03:control:6": 111, "c03:control:7": 104, "c03:control:8": 93, "c03:control:9": 122, "c03:data": 2159, "c03:rejected": 2422, "c03:restamps:1": 600, "c03:restamps:2": 574, "c03:restamps:3": 464, "c03:restamps:4": 512, "c03:wire-entry:Forward/built": 510, "c03:wire-entry:Forward/decoded": 185, "c03:wire-entry:Forward/decoded-restamped": 187, "c03:wire-entry:Forward/restamped": 198, "c03:wire-entry:ForwardAsync/built": 491, "c03:wire-entry:ForwardAsync/decoded": 187, "c03:wire-entry:ForwardAsync/decoded-restamped": 187, "c03:wire-entry:ForwardAsync/restamped": 197, "c03:wire-entry:Reply": 776, "c03:wire-entry:Send": 770, "c03:wire-entry:SendAsync": 798, "c03:wire-entry:SendSECS2": 665, "c03:wire:Forward": 1061, "c03:wire:ForwardAsync": 1063, "c03:wire:Reply": 776, "c03:wire:Send": 770, "c03:wire:SendAsync": 798, "c03:wire:SendSECS2": 665, "c03:wire:active": 2566, "c03:wire:passive": 2588},
     },
     "C04": {
         "level": "exploration",
@@ -45,7 +45,7 @@ REGISTRY = {
             {"name": "TestC04Stream", "shards": 8, "shards_thorough": 16},
             {"name": "FuzzC04Frame", "shards": 1, "fuzz": True, "tier": "thorough", "fuzztime": "120s"},
         ],
-        "require": {"c04:accepted": 1339, "c04:accepted-bad-body": 429, "c04:mut:extend": 566, "c04:mut:flip": 566, "c04:mut:len": 1057, "c04:mut:none": 1072, "c04:mut:ptype": 710, "c04:mut:random": 742, "c04:mut:stype": 722, "c04:mut:truncate": 562, "c04:rejected": 4231, "c04s:bad-length-huge": 317, "c04s:bad-length-small": 248, "c04s:boundaries": 763, "c04s:delay:idle-long": 390, "c04s:delay:none": 2909, "c04s:delay:short": 1929, "c04s:delay:stall": 1116, "c04s:drip-head": 710, "c04s:few": 853, "c04s:many": 873, "c04s:role:active": 1603, "c04s:role:passive": 1597},
+        "require": {"c04:accepted": 1319, "c04:accepted-bad-body": 429, "c04:mut:extend": 566, "c04:mut:flip": 566, "c04:mut:len": 1045, "c04:mut:none": 1071, "c04:mut:ptype": 710, "c04:mut:random": 721, "c04:mut:stype": 722, "c04:mut:truncate": 562, "c04:rejected": 4231, "c04s:bad-length-huge": 308, "c04s:bad-length-small": 248, "c04s:boundaries": 763, "c04s:delay:idle-long": 390, "c04s:delay:none": 2909, "c04s:delay:short": 1929, "c04s:delay:stall": 1095, "c04s:drip-head": 688, "c04s:few": 853, "c04s:many": 873, "c04s:role:active": 1586, "c04s:role:passive": 1597},
     },
     "C06": {
         "level": "exploration",
@@ -56,7 +56,7 @@ REGISTRY = {
             {"name": "TestC06Replies", "shards": 8, "shards_thorough": 16},
             {"name": "TestC06Coincidences", "shards": 8, "shards_thorough": 16, "crash_is_violation": True},
         ],
-        "require": {"c06:drop:early": 113, "c06:drop:mid": 116, "c06:drop:none": 570, "c06:outcome:closed": 81, "c06:outcome:ctx": 163, "c06:outcome:reject": 245, "c06:outcome:reply": 746, "c06:outcome:t3": 135, "c06:policy:abort": 167, "c06:policy:collide-control": 330, "c06:policy:collide-primary": 173, "c06:policy:dup": 256, "c06:policy:dup-late": 198, "c06:policy:late": 190, "c06:policy:none": 205, "c06:policy:reject": 202, "c06:policy:reply": 577, "c06:policy:unsolicited": 157, "c06:slow-write": 150},
+        "require": {"c06:drop:early": 113, "c06:drop:mid": 115, "c06:drop:none": 564, "c06:outcome:closed": 71, "c06:outcome:ctx": 156, "c06:outcome:reject": 237, "c06:outcome:reply": 746, "c06:outcome:t3": 132, "c06:policy:abort": 164, "c06:policy:collide-control": 330, "c06:policy:collide-primary": 165, "c06:policy:dup": 249, "c06:policy:dup-late": 197, "c06:policy:late": 188, "c06:policy:none": 193, "c06:policy:reject": 195, "c06:policy:reply": 577, "c06:policy:unsolicited": 157, "c06:slow-write": 150, "c06c:role:active": 794, "c06c:role:passive": 805},
     },
     "C07": {
         "level": "exploration",
@@ -66,7 +66,7 @@ REGISTRY = {
         "tests": [
             {"name": "TestC07Gate", "shards": 8, "shards_thorough": 16},
         ],
-        "require": {"c07:between-generations": 482, "c07:closed": 821, "c07:connected-not-selected": 1171, "c07:connecting": 287, "c07:deselected": 485, "c07:never-opened": 835, "c07:pipeline:cuts": 437, "c07:pipeline:cuts-settle": 379, "c07:pipeline:drip": 360, "c07:pipeline:one-write": 446, "c07:role:active": 3016, "c07:role:passive": 2983, "c07:select-rejected": 294},
+        "require": {"c07:between-generations": 398, "c07:closed": 760, "c07:connected-not-selected": 1024, "c07:connecting": 262, "c07:deselected": 412, "c07:deselected-pipelined": 527, "c07:never-opened": 780, "c07:pipeline:cuts": 437, "c07:pipeline:cuts-settle": 379, "c07:pipeline:drip": 353, "c07:pipeline:one-write": 435, "c07:role:active": 2991, "c07:role:passive": 2983, "c07:select-rejected": 214},
     },
     "C05": {
         "level": "exploration",
@@ -79,7 +79,7 @@ REGISTRY = {
             {"name": "TestC05KnownF6", "shards": 1},
             {"name": "TestC05Scripts", "shards": 8, "shards_thorough": 16},
         ],
-        "require": {"c05b:coalesced": 192, "c05b:connect-racing-close": 121, "c05b:deselect": 508, "c05b:dwell-expired": 111, "c05b:role:active": 400, "c05b:role:passive": 399, "close": 2940, "coalesced": 1061, "generation-after-close": 2209, "in-window-commit": 2569, "late-commit": 2385, "multi-generation": 1240, "stale-event": 2872},
+        "require": {"c05b:coalesced": 192, "c05b:connect-racing-close": 121, "c05b:deselect": 508, "c05b:dwell-expired": 49, "c05b:role:active": 400, "c05b:role:passive": 398, "close": 2940, "coalesced": 1061, "generation-after-close": 2209, "in-window-commit": 2569, "late-commit": 2385, "multi-generation": 1240, "stale-event": 2872},
     },
     "C08": {
         "level": "exploration",
@@ -89,7 +89,7 @@ REGISTRY = {
         "tests": [
             {"name": "TestC08Responder", "shards": 8, "shards_thorough": 16},
         ],
-        "require": {"c08:data-delivered": 1088, "c08:data-not-selected": 1593, "c08:data-session-mismatch": 584, "c08:deselect-not-selected": 1681, "c08:deselect-selected": 1796, "c08:late-response-after-timeout": 273, "c08:linktest": 1332, "c08:orphan-reject-ignored": 1091, "c08:orphan-response": 1762, "c08:own-select-accepted": 659, "c08:own-select-already-active": 192, "c08:own-select-refused": 97, "c08:own-select-rejected": 337, "c08:reject-control-with-body": 1707, "c08:reject-ptype": 2050, "c08:reject-stype": 1818, "c08:responses-cut-by-disconnect": 469, "c08:role:active": 2001, "c08:role:passive": 1999, "c08:second-connection": 966, "c08:select-duplicate": 2037, "c08:select-first": 3075, "c08:separate-ignored": 741, "c08:separate-selected": 936},
+        "require": {"c08:data-delivered": 1088, "c08:data-not-selected": 1593, "c08:data-session-mismatch": 568, "c08:deselect-not-selected": 1681, "c08:deselect-selected": 1794, "c08:late-response-after-timeout": 273, "c08:linktest": 1332, "c08:orphan-reject-ignored": 1091, "c08:orphan-response": 1762, "c08:own-select-accepted": 642, "c08:own-select-already-active": 192, "c08:own-select-refused": 97, "c08:own-select-rejected": 330, "c08:reject-control-with-body": 1707, "c08:reject-ptype": 2050, "c08:reject-stype": 1818, "c08:responses-cut-by-disconnect": 459, "c08:role:active": 1983, "c08:role:passive": 1999, "c08:second-connection": 966, "c08:select-duplicate": 2022, "c08:select-first": 3075, "c08:separate-ignored": 741, "c08:separate-selected": 936},
     },
     "C09": {
         "level": "fault_enumeration",
@@ -102,7 +102,7 @@ REGISTRY = {
             {"name": "TestC09Generations", "shards": 8, "shards_thorough": 16},
             {"name": "TestC09Secs1", "shards": 4, "shards_thorough": 16, "crash_is_violation": True},
         ],
-        "require": {"c09:fault:close": 831, "c09:fault:cut-mid-frame": 296, "c09:fault:linktest-dead": 321, "c09:fault:peer-close": 632, "c09:fault:peer-reset": 616, "c09:fault:reply-then-close": 798, "c09:fault:separate": 264, "c09:fault:stall-queue-reset": 310, "c09:fault:t8-stall": 300, "c09:fault:write-timeout": 370, "c09:gens:1": 811, "c09:gens:2": 835, "c09:gens:3": 753, "c09:pending-at-fault": 3189, "c09:role:active": 1198, "c09:role:passive": 1201, "c09:stale-replies-played": 859, "c09s1:gens:1": 273, "c09s1:gens:2": 268, "c09s1:gens:3": 258, "c09s1:role:equipment": 393, "c09s1:role:host": 406},
+        "require": {"c09:fault:close": 825, "c09:fault:cut-mid-frame": 296, "c09:fault:linktest-dead": 301, "c09:fault:peer-close": 630, "c09:fault:peer-reset": 616, "c09:fault:reply-then-close": 798, "c09:fault:separate": 264, "c09:fault:stall-queue-reset": 300, "c09:fault:t8-stall": 300, "c09:fault:write-timeout": 366, "c09:gens:1": 811, "c09:gens:2": 813, "c09:gens:3": 753, "c09:pending-at-fault": 3189, "c09:role:active": 1187, "c09:role:passive": 1201, "c09:stale-replies-played": 850, "c09s1:gens:1": 272, "c09s1:gens:2": 268, "c09s1:gens:3": 245, "c09s1:role:equipment": 393, "c09s1:role:host": 404},
     },
     "C10": {
         "level": "exploration",
@@ -114,7 +114,7 @@ REGISTRY = {
             {"name": "TestC10Lifecycle", "shards": 8, "shards_thorough": 8, "crash_is_violation": True},
             {"name": "TestC10StuckPeer", "shards": 4, "shards_thorough": 16, "crash_is_violation": True},
         ],
-        "require": {"c10:reopened": 48},
+        "require": {"c10:reopened": 45, "c10b:selected": 59, "c10b:wt:5s": 43},
     },
     "C11": {
         "level": "fault_enumeration",
@@ -126,7 +126,7 @@ REGISTRY = {
             {"name": "TestC11Recovery", "shards": 8, "shards_thorough": 16},
             {"name": "TestC11CutEnumeration", "shards": 1},
         ],
-        "require": {"backoff": 20000, "backoff:flat": 3901, "backoff:nonfinite": 4308, "backoff:reaches-T5": 3677, "c11:cut-beyond-exchange": 100, "c11:enumerated": 40, "c11:fault:cut-in": 228, "c11:fault:cut-out": 149, "c11:fault:linktest": 67, "c11:fault:peer-close": 65, "c11:fault:t7": 42, "c11:fault:t8": 59, "c11:fault:write-timeout": 63, "c11:redundant-open": 283, "c11:refusals:0": 274, "c11:refusals:1": 102, "c11:refusals:2": 109, "c11:refusals:3": 253, "c11:role:active": 371, "c11:role:passive": 368},
+        "require": {"backoff": 20000, "backoff:flat": 3897, "backoff:nonfinite": 4308, "backoff:reaches-T5": 3656, "c11:cold-start": 217, "c11:cut-beyond-exchange": 100, "c11:enumerated": 40, "c11:fault:cut-in": 220, "c11:fault:cut-out": 149, "c11:fault:linktest": 64, "c11:fault:peer-close": 59, "c11:fault:t7": 37, "c11:fault:t8": 59, "c11:fault:write-timeout": 63, "c11:redundant-open": 283, "c11:refusals:0": 271, "c11:refusals:1": 102, "c11:refusals:2": 103, "c11:refusals:3": 253, "c11:role:active": 371, "c11:role:passive": 366},
     },
     "C17": {
         "level": "exploration",
@@ -138,7 +138,7 @@ REGISTRY = {
             {"name": "TestC17Assembler", "shards": 4, "shards_thorough": 16},
             {"name": "TestC17Line", "shards": 8, "shards_thorough": 16},
         ],
-        "require": {"c17:blocks:1": 2091, "c17:blocks:2": 590, "c17:blocks:3": 481, "c17:blocks:4": 836, "c17:parse:extend": 718, "c17:parse:flip": 928, "c17:parse:length": 715, "c17:parse:none": 942, "c17:parse:truncate": 695, "c17a:block-0": 620, "c17a:block-0-lone": 616, "c17a:changed-header": 1071, "c17a:duplicate": 964, "c17a:new-message": 963, "c17a:next": 3842, "c17a:next-after-T4": 1061, "c17a:skipped-number": 732, "c17a:wrong-device": 1081, "c17a:wrong-direction": 1081, "c17l:in:bad-checksum": 192, "c17l:in:bad-length": 178, "c17l:in:block-0": 107, "c17l:in:block-0-lone": 113, "c17l:in:changed-header": 209, "c17l:in:duplicate": 203, "c17l:in:new-message": 191, "c17l:in:next": 4245, "c17l:in:next-after-T4": 209, "c17l:in:skipped-number": 138, "c17l:in:wrong-device": 213, "c17l:in:wrong-direction": 214, "c17l:inbound": 623, "c17l:out:blocks:1": 589, "c17l:out:blocks:2": 172, "c17l:out:blocks:3": 141, "c17l:out:blocks:4": 235, "c17l:out:forward": 582, "c17l:out:nak-retry": 396, "c17l:out:send": 556, "c17l:outbound": 576, "c17l:role:equipment": 595, "c17l:role:host": 604},
+        "require": {"c17:blocks:1": 2086, "c17:blocks:2": 590, "c17:blocks:3": 481, "c17:blocks:4": 824, "c17:parse:extend": 699, "c17:parse:flip": 928, "c17:parse:length": 715, "c17:parse:none": 931, "c17:parse:truncate": 695, "c17a:block-0": 546, "c17a:block-0+just-past-T4": 75, "c17a:block-0-lone": 544, "c17a:block-0-lone+just-past-T4": 65, "c17a:changed-header": 995, "c17a:changed-header+just-past-T4": 144, "c17a:duplicate": 898, "c17a:duplicate+just-past-T4": 122, "c17a:new-message": 879, "c17a:new-message+just-past-T4": 121, "c17a:next": 3768, "c17a:next+just-past-T4": 1851, "c17a:next-after-T4": 1061, "c17a:skipped-number": 658, "c17a:skipped-number+just-past-T4": 85, "c17a:wrong-device": 987, "c17a:wrong-device+just-past-T4": 140, "c17a:wrong-direction": 982, "c17a:wrong-direction+just-past-T4": 144, "c17l:duplex": 188, "c17l:duplex:inbound-blocks:2": 66, "c17l:duplex:inbound-blocks:3": 62, "c17l:duplex:inbound-blocks:4": 59, "c17l:in:bad-checksum": 157, "c17l:in:bad-length": 148, "c17l:in:block-0": 87, "c17l:in:block-0-lone": 85, "c17l:in:changed-header": 167, "c17l:in:duplicate": 156, "c17l:in:new-message": 151, "c17l:in:next": 3455, "c17l:in:next-after-T4": 165, "c17l:in:skipped-number": 112, "c17l:in:wrong-device": 177, "c17l:in:wrong-direction": 161, "c17l:inbound": 508, "c17l:out:blocks:1": 506, "c17l:out:blocks:2": 146, "c17l:out:blocks:3": 121, "c17l:out:blocks:4": 198, "c17l:out:forward": 502, "c17l:out:nak-retry": 341, "c17l:out:send": 470, "c17l:outbound": 503, "c17l:role:equipment": 594, "c17l:role:host": 604},
     },
     "C18": {
         "level": "fault_enumeration",
@@ -149,7 +149,7 @@ REGISTRY = {
             {"name": "TestC17Assembler", "shards": 2, "shards_thorough": 8},
             {"name": "TestC18ExactlyOnce", "shards": 8, "shards_thorough": 8, "crash_is_violation": True},
         ],
-        "require": {"c18:contention": 71},
+        "require": {"c17a:block-0": 550, "c17a:block-0+just-past-T4": 71, "c17a:block-0-lone": 563, "c17a:block-0-lone+just-past-T4": 66, "c17a:changed-header": 987, "c17a:changed-header+just-past-T4": 138, "c17a:duplicate": 897, "c17a:duplicate+just-past-T4": 122, "c17a:new-message": 865, "c17a:new-message+just-past-T4": 123, "c17a:next": 3779, "c17a:next+just-past-T4": 1834, "c17a:next-after-T4": 1068, "c17a:skipped-number": 663, "c17a:skipped-number+just-past-T4": 83, "c17a:wrong-device": 991, "c17a:wrong-device+just-past-T4": 145, "c17a:wrong-direction": 990, "c17a:wrong-direction+just-past-T4": 138, "c18:contention": 70},
     },
     "C19": {
         "level": "exploration",
@@ -161,7 +161,7 @@ REGISTRY = {
             {"name": "TestC19Linktest", "shards": 8, "shards_thorough": 16},
             {"name": "TestC19AfterFailedSends", "shards": 4, "shards_thorough": 16},
         ],
-        "require": {"c19b:answers": 50, "c19b:role:active": 151, "c19b:role:passive": 148, "c19b:silent": 50, "c19b:suppress:false": 152, "c19b:suppress:true": 147, "c19b:threshold:1": 74, "c19b:threshold:2": 85, "c19b:threshold:3": 68, "c19b:threshold:4": 71, "credited": 7339, "restart": 8242, "suppress:false": 9975, "suppress:true": 10025, "threshold:1": 4121, "threshold:2": 4159, "threshold:3": 3088, "threshold:4": 3008, "threshold:5": 2537, "threshold:6": 3084},
+        "require": {"c19b:answers": 39, "c19b:role:active": 147, "c19b:role:passive": 148, "c19b:silent": 50, "c19b:suppress:false": 150, "c19b:suppress:true": 147, "c19b:threshold:1": 74, "c19b:threshold:2": 80, "c19b:threshold:3": 66, "c19b:threshold:4": 71, "c19c:role:active": 78, "c19c:role:passive": 82, "c19c:suppression:false": 40, "c19c:suppression:true": 119, "credited": 7295, "restart": 8242, "suppress:false": 9975, "suppress:true": 10012, "threshold:1": 4121, "threshold:2": 4118, "threshold:3": 3028, "threshold:4": 3008, "threshold:5": 2537, "threshold:6": 3059},
     },
     "C20": {
         "level": "exploration",
@@ -171,7 +171,7 @@ REGISTRY = {
         "tests": [
             {"name": "TestC20Metrics", "shards": 8, "shards_thorough": 16},
         ],
-        "require": {"c20:cold-open": 402, "c20:outcome:cancel": 620, "c20:outcome:disconnect": 477, "c20:outcome:ok": 1274, "c20:outcome:refused": 1060, "c20:outcome:reject": 695, "c20:outcome:t3": 976, "c20:outcome:write-error": 440, "c20:role:active": 796, "c20:role:passive": 803},
+        "require": {"c20:cold-open": 399, "c20:outcome:cancel": 620, "c20:outcome:disconnect": 465, "c20:outcome:ok": 1249, "c20:outcome:refused": 1022, "c20:outcome:reject": 680, "c20:outcome:t3": 949, "c20:outcome:write-error": 411, "c20:role:active": 794, "c20:role:passive": 803},
     },
     "C12": {
         "level": "exploration",
@@ -181,7 +181,7 @@ REGISTRY = {
         "tests": [
             {"name": "TestC12Immutable", "shards": 8, "shards_thorough": 16, "race": True, "crash_is_violation": True, "timeout_thorough": 7200},
         ],
-        "require": {"c12:constructed": 222, "c12:counted:false": 165, "c12:counted:true": 155, "c12:decoded": 97},
+        "require": {"c12:constructed": 217, "c12:counted:false": 154, "c12:counted:true": 155, "c12:decoded": 97},
     },
     "C13": {
         "level": "exploration",
@@ -192,7 +192,7 @@ REGISTRY = {
             {"name": "TestC13EncodeParse", "shards": 8, "shards_thorough": 16},
             {"name": "TestC13ParseEncode", "shards": 8, "shards_thorough": 16},
         ],
-        "require": {"accepted": 2799, "ascii-gt": 108, "ascii-special": 520, "c13enc": 4000, "c13parse": 3000, "comments": 1500, "empty-body": 503, "float-extreme": 531, "loose": 2194, "multi": 1090, "rejected": 200},
+        "require": {"accepted": 2786, "ascii-gt": 96, "ascii-special": 487, "c13enc": 4000, "c13parse": 3000, "comments": 1500, "empty-body": 503, "float-extreme": 496, "loose": 2164, "multi": 1053, "rejected": 200},
     },
     "C15": {
         "level": "exploration",
@@ -200,7 +200,7 @@ REGISTRY = {
         "trust": "The differential is between the library's two renderers (that agreement IS the property); read-back trusts harness/ref/e5 values.",
         "technique": 'property-based testing (rapid): differential between renderers + parse read-back',
         "tests": [{"name": "TestC15Renderers", "shards": 8, "shards_thorough": 16}],
-        "require": {"c15": 4000, "empty-child": 351, "extreme-numeric": 590, "readback": 2614, "top:ascii": 198, "top:binary": 356, "top:boolean": 351, "top:f4": 106, "top:f8": 115, "top:i1": 147, "top:i2": 138, "top:i4": 113, "top:i8": 137, "top:jis8": 194, "top:list": 1480, "top:localized_str": 141, "top:u1": 112, "top:u2": 110, "top:u4": 183, "top:u8": 112},
+        "require": {"c15": 4000, "empty-child": 348, "extreme-numeric": 590, "history:root-then-subs": 190, "history:shared-object": 355, "history:subs-first": 160, "readback": 2602, "top:ascii": 193, "top:binary": 340, "top:boolean": 342, "top:f4": 106, "top:f8": 110, "top:i1": 142, "top:i2": 130, "top:i4": 113, "top:i8": 131, "top:jis8": 194, "top:list": 1480, "top:localized_str": 141, "top:u1": 112, "top:u2": 110, "top:u4": 183, "top:u8": 107},
     },
     "C16": {
         "level": "exploration",
@@ -211,7 +211,7 @@ REGISTRY = {
             {"name": "TestC16Constructors", "shards": 4, "shards_thorough": 16},
             {"name": "TestC16Wire", "shards": 4, "shards_thorough": 16, "crash_is_violation": True},
         ],
-        "require": {"c16:binary": 775, "c16:boolean": 989, "c16:clamped": 804, "c16:float": 1544, "c16:int": 2824, "c16:refused": 4344, "c16:uint": 1866, "c16:value": 2852},
+        "require": {"c16:binary": 762, "c16:boolean": 955, "c16:clamped": 799, "c16:float": 1513, "c16:int": 2824, "c16:refused": 4344, "c16:uint": 1866, "c16:value": 2823, "c16w:Forward": 184, "c16w:ReplyDataMessage": 171, "c16w:SendDataMessage/W": 319, "c16w:SendDataMessage/noW": 326, "c16w:SendDataMessageAsync": 236, "c16w:SendSECS2Message": 222, "c16w:handler-reply": 178, "c16w:handler-send": 230},
     },
     "C14": {
         "level": "exploration",
@@ -224,7 +224,7 @@ REGISTRY = {
             {"name": "TestC14Concurrent", "shards": 4, "shards_thorough": 8, "race": True, "crash_is_violation": True},
             {"name": "FuzzC14SML", "shards": 1, "fuzz": True, "tier": "thorough", "fuzztime": "180s", "crash_is_violation": True},
         ],
-        "require": {"c14:all-accepted": 1618, "c14:delete": 557, "c14:dropquotes": 395, "c14:duplicate": 402, "c14:header": 339, "c14:hint": 359, "c14:insert": 548, "c14:some-rejected": 4381, "c14:soup": 481, "c14:swapbrackets": 335, "c14:truncate": 890, "c14:unbalance-close": 403, "c14:unterminated": 333, "c14:valid": 954, "c14conc": 60, "shape:hint": 21, "shape:nest": 3},
+        "require": {"c14:all-accepted": 1599, "c14:delete": 542, "c14:dropquotes": 395, "c14:duplicate": 402, "c14:header": 339, "c14:hint": 348, "c14:insert": 548, "c14:some-rejected": 4381, "c14:soup": 481, "c14:swapbrackets": 328, "c14:truncate": 886, "c14:unbalance-close": 399, "c14:unterminated": 333, "c14:valid": 941, "c14conc": 60, "shape:hint": 17, "shape:nest": 2},
     },
 }
 
